@@ -1548,4 +1548,153 @@ theorem never_wrong_body_block1_composed_tokens (P : B1Par) (hP : B1ParOK P) (ap
   rw [houts'] at ho
   exact never_wrong_body_block1_composed_partial P hP evs' o ho
 
+/-! ## Round R09d: the client never asks for a Block2 block beyond NUM 0xFFFFF -/
+
+/-- the Block2 request (NUM, SZX) libcoap transmits in reaction to a response, if any -/
+def reqOf : CrcvOut → Option (Nat × Nat)
+  | .restart szx => some (0, szx)
+  | .next n szx => some (n, szx)
+  | .block _ _ _ nx => nx
+  | _ => none
+
+theorem crcvStore_req (single : Bool) (cap : Nat) (junk : UInt8) (lg : Crcv) (num m szx : Nat) (payload data : Bytes)
+    (offset size2 fmt n s : Nat)
+    (h : reqOf (crcvStore single cap junk lg num m szx payload data offset size2 fmt).2 = some (n, s)) :
+    n = num + 1 ∧ s = szx ∧ m ≠ 0 := by
+  revert h
+  unfold crcvStore
+  dsimp only
+  split
+  · simp [reqOf]
+  split
+  · simp [reqOf]
+  split
+  · simp [reqOf]
+  split
+  · simp [reqOf]
+  split
+  · simp [reqOf]
+  split
+  · split
+    · split
+      · rename_i hm; simp only [reqOf, Option.some.injEq, Prod.mk.injEq]; intro h; exact ⟨h.1.symm, h.2.symm, hm⟩
+      · split <;> simp [reqOf]
+    · simp only [reqOf]
+      split
+      · rename_i hm; simp only [Option.some.injEq, Prod.mk.injEq]; intro h; exact ⟨h.1.symm, h.2.symm, hm⟩
+      · simp
+  · split <;> simp [reqOf]
+
+theorem crcvStep_req (single : Bool) (cap : Nat) (junk : UInt8) (st : Option Crcv) (r : Resp) (num m szx n s : Nat)
+    (hblk : r.blk = some (num, m, szx)) (hnum : num ≤ 0xFFFFF) (hszx : szx ≤ 6)
+    (h : reqOf (crcvStep single cap junk st r).2 = some (n, s)) :
+    n ≤ 0xFFFFF ∧ s = szx ∧ n * 2 ^ (s + 4) < 2 ^ 32 := by
+  have hfin : ∀ n, n ≤ 0xFFFFF → n * 2 ^ (szx + 4) < 2 ^ 32 := by
+    intro n hn
+    have h1 : 2 ^ (szx + 4) ≤ 2 ^ 10 := Nat.pow_le_pow_right (by decide) (by omega)
+    calc n * 2 ^ (szx + 4) ≤ 0xFFFFF * 2 ^ 10 := Nat.mul_le_mul hn h1
+      _ < 2 ^ 32 := by decide
+  have hblock : ∀ lg, reqOf (crcvBlock single cap junk lg num m szx r).2 = some (n, s) →
+      n ≤ 0xFFFFF ∧ s = szx ∧ n * 2 ^ (s + 4) < 2 ^ 32 := by
+    intro lg
+    unfold crcvBlock
+    dsimp only
+    generalize (if r.payload.length > 2 ^ (szx + 4) then r.payload.take (2 ^ (szx + 4)) else r.payload) = data
+    by_cases hund : m ≠ 0 ∧ data.length ≠ 2 ^ (szx + 4)
+    · rw [if_pos hund]; simp [reqOf]
+    rw [if_neg hund]
+    by_cases hlast : m ≠ 0 ∧ 0xFFFFF ≤ num
+    · rw [if_pos hlast]; simp [reqOf]
+    rw [if_neg hlast]
+    have hstore : ∀ lg2 payload data offset size2 fmt,
+        reqOf (crcvStore single cap junk lg2 num m szx payload data offset size2 fmt).2 = some (n, s) →
+        n ≤ 0xFFFFF ∧ s = szx ∧ n * 2 ^ (s + 4) < 2 ^ 32 := by
+      intro lg2 payload data offset size2 fmt hh
+      obtain ⟨e1, e2, e3⟩ := crcvStore_req _ _ _ _ _ _ _ _ _ _ _ _ _ _ hh
+      have hlt : num < 0xFFFFF := by
+        apply Classical.byContradiction; intro hc; exact hlast ⟨e3, by omega⟩
+      subst e1; subst e2
+      exact ⟨by omega, rfl, hfin _ (by omega)⟩
+    cases he : r.etag with
+    | some e =>
+      simp only
+      split
+      · simp only [reqOf, Option.some.injEq, Prod.mk.injEq]
+        intro hh; rw [← hh.1, ← hh.2]; exact ⟨by omega, rfl, hfin 0 (by omega)⟩
+      · exact hstore _ _ _ _ _ _
+    | none =>
+      simp only
+      split
+      · simp [reqOf]
+      · exact hstore _ _ _ _ _ _
+  have hfound : ∀ lg, reqOf (crcvFound single cap junk lg r).2 = some (n, s) →
+      n ≤ 0xFFFFF ∧ s = szx ∧ n * 2 ^ (s + 4) < 2 ^ 32 := by
+    intro lg
+    unfold crcvFound
+    rw [hblk]
+    dsimp only
+    split
+    · exact hblock lg
+    · simp [reqOf]
+  revert h
+  unfold crcvStep
+  cases st with
+  | some lg => exact hfound lg
+  | none =>
+    rw [hblk]
+    dsimp only
+    split
+    · simp [reqOf]
+    · exact hfound {}
+
+/-- every follow-up request along a run of the client's Block2 receive path -/
+def crcvReqs (single : Bool) (cap : Nat) (junk : UInt8) : Option Crcv → List Resp → List (Nat × Nat)
+  | _, [] => []
+  | st, r :: rest =>
+    (match reqOf (crcvStep single cap junk st r).2 with | some q => [q] | none => []) ++
+      crcvReqs single cap junk (crcvStep single cap junk st r).1 rest
+
+/-- ROUND R09d (fix 1edd277).  For EVERY sequence of 2.xx responses (any Block2 options `coap_get_block_b` accepts: NUM has
+at most 20 bits, SZX ≤ 6 - hostile or not), from every state of the lg_crcv, in both delivery modes: every request
+libcoap sends for a further block names a block number of at most 20 bits, in the block size of the response it
+answers, at an offset below 2^32.  Before the fix a response with NUM 0xFFFFF and M set was answered with a request for
+block 2^20 (Block2 = 0x1000000 | SZX, four bytes: unparseable). -/
+theorem block2_next_request_20bit (single : Bool) (cap : Nat) (junk : UInt8) (rs : List Resp) :
+    ∀ (st : Option Crcv), (∀ r, r ∈ rs → ∀ num m szx, r.blk = some (num, m, szx) → num ≤ 0xFFFFF ∧ szx ≤ 6) →
+    ∀ q, q ∈ crcvReqs single cap junk st rs → q.1 ≤ 0xFFFFF ∧ q.2 ≤ 6 ∧ q.1 * 2 ^ (q.2 + 4) < 2 ^ 32 := by
+  induction rs with
+  | nil => intro st _ q hq; cases hq
+  | cons r rest ih =>
+    intro st hrs q hq
+    unfold crcvReqs at hq
+    rcases List.mem_append.mp hq with hq | hq
+    · cases hreq : reqOf (crcvStep single cap junk st r).2 with
+      | none => rw [hreq] at hq; cases hq
+      | some q' =>
+        rw [hreq] at hq
+        have hqq : q = q' := by simpa using hq
+        subst hqq
+        cases hb : r.blk with
+        | none =>
+          exfalso
+          revert hreq
+          unfold crcvStep crcvFound
+          rw [hb]
+          cases st <;> simp [reqOf]
+        | some b =>
+          obtain ⟨num, m, szx⟩ := b
+          obtain ⟨h1, h2⟩ := hrs r (List.mem_cons_self) num m szx hb
+          obtain ⟨a, b, c⟩ := crcvStep_req single cap junk st r num m szx q.1 q.2 hb h1 h2 hreq
+          exact ⟨a, by omega, c⟩
+    · exact ih _ (fun r' hr' => hrs r' (List.mem_cons_of_mem _ hr')) q hq
+
+/-- the hypothesis is satisfiable at the end of the number space, and the bound is attained: block 0xFFFFE with M set
+is answered with a request for block 0xFFFFF; block 0xFFFFF with M set is refused (4.02), no request -/
+example : crcvReqs false 6 0 (some {})
+    [{ blk := some (0xFFFFE, 1, 0), payload := List.replicate 16 7 }, { blk := some (0xFFFFF, 1, 0), payload := List.replicate 16 7 }]
+    = [(0xFFFFF, 0)] := by decide
+
+example : (crcvStep true 6 0 (some {}) { blk := some (0xFFFFF, 1, 0), payload := List.replicate 16 7 }) = (none, CrcvOut.err402) := by
+  decide
+
 end Coap.C09
